@@ -47,8 +47,9 @@ class TLCResult(object):
         m = re.search(r"Action property (\S+) is violated", out)
         if m:
             self.invariant_violated = m.group(1)
-        if "Temporal properties were violated" in out and not self.invariant_violated:
-            self.invariant_violated = "temporal"
+        m = re.search(r"Temporal propert(?:y|ies)\b([^\n]*?)\s*(?:was|were) violated", out)
+        if m and not self.invariant_violated:
+            self.invariant_violated = ("temporal " + m.group(1).strip()).strip()
         self.deadlock = "Deadlock reached" in out
         self.error = ("Error:" in out) and not self.invariant_violated and not self.deadlock
         self.ok = (rc == 0) and ("Model checking completed. No error has been found" in out
